@@ -36,6 +36,8 @@ type Solver struct {
 	LogDir  string // if set, a sample of scripts is written here
 	logged  int
 	Timeout int // ms per query
+	Timeouts int
+	slowLogged int
 }
 
 func solverArgv(name string, timeoutMs int) []string {
@@ -85,7 +87,7 @@ func (s *Solver) Close() {
 func (s *Solver) Check(cons []*Term, doms map[*Term]*[4]uint64, wantModel []*Term) (SatResult, map[*Term]uint64, string) {
 	start := time.Now()
 	var sb strings.Builder
-	sb.WriteString("(push 1)\n")
+	sb.WriteString("(reset)\n(set-option :produce-models true)\n")
 	w := newSMTWriter(&sb)
 	seen := map[*Term]bool{}
 	var vars []*Term
@@ -115,7 +117,36 @@ func (s *Solver) Check(cons []*Term, doms map[*Term]*[4]uint64, wantModel []*Ter
 		s.logged++
 	}
 	io.WriteString(s.in, script)
-	line, err := s.readLine()
+	type ans struct {
+		line string
+		err  error
+	}
+	ch := make(chan ans, 1)
+	go func() {
+		l, e := s.readLine()
+		ch <- ans{l, e}
+	}()
+	var line string
+	var err error
+	select {
+	case a := <-ch:
+		line, err = a.line, a.err
+	case <-time.After(time.Duration(s.Timeout)*time.Millisecond + 3*time.Second):
+		// the soft timeout was not honoured: kill and restart the solver; the verdict is "unknown"
+		s.cmd.Process.Kill()
+		<-ch
+		s.cmd.Wait()
+		s.Timeouts++
+		fmt.Fprintf(os.Stderr, "solver %s killed after %v (script %d bytes)\n", s.Name, time.Since(start), len(script))
+		if s.LogDir != "" {
+			os.WriteFile(fmt.Sprintf("%s/timeout_%s_%d.smt2", s.LogDir, s.Name, s.Queries), []byte(script), 0o644)
+		}
+		if ns, e := NewSolver(s.Name, s.Timeout); e == nil {
+			s.cmd, s.in, s.out = ns.cmd, ns.in, ns.out
+		}
+		s.Wall += time.Since(start)
+		return Unknown, nil, script
+	}
 	res := Unknown
 	if err != nil {
 		s.Errors++
@@ -131,7 +162,10 @@ func (s *Solver) Check(cons []*Term, doms map[*Term]*[4]uint64, wantModel []*Ter
 		// unknown, timeout, or an (error ...) line: inconclusive
 		if strings.HasPrefix(line, "(error") {
 			s.Errors++
-			fmt.Fprintf(os.Stderr, "solver %s: %s\n", s.Name, line)
+		}
+		fmt.Fprintf(os.Stderr, "solver %s answered %q after %v (script %d bytes)\n", s.Name, line, time.Since(start), len(script))
+		if s.LogDir != "" {
+			os.WriteFile(fmt.Sprintf("%s/unknown_%s_%d.smt2", s.LogDir, s.Name, s.Queries), []byte(script), 0o644)
 		}
 		res = Unknown
 	}
@@ -152,7 +186,35 @@ func (s *Solver) Check(cons []*Term, doms map[*Term]*[4]uint64, wantModel []*Ter
 			}
 			q.WriteString("))\n")
 			io.WriteString(s.in, q.String())
-			txt, err := s.readSexp()
+			type sx struct {
+				txt string
+				err error
+			}
+			sch := make(chan sx, 1)
+			go func() {
+				t, e := s.readSexp()
+				sch <- sx{t, e}
+			}()
+			var txt string
+			var err error
+			select {
+			case a := <-sch:
+				txt, err = a.txt, a.err
+			case <-time.After(time.Duration(s.Timeout)*time.Millisecond + 3*time.Second):
+				s.cmd.Process.Kill()
+				<-sch
+				s.cmd.Wait()
+				s.Timeouts++
+				fmt.Fprintf(os.Stderr, "solver %s killed in get-value after %v (script %d bytes)\n", s.Name, time.Since(start), len(script))
+				if s.LogDir != "" {
+					os.WriteFile(fmt.Sprintf("%s/gvtimeout_%s_%d.smt2", s.LogDir, s.Name, s.Queries), []byte(script+q.String()), 0o644)
+				}
+				if ns, e := NewSolver(s.Name, s.Timeout); e == nil {
+					s.cmd, s.in, s.out = ns.cmd, ns.in, ns.out
+				}
+				s.Wall += time.Since(start)
+				return Unknown, nil, script
+			}
 			if err != nil {
 				s.Errors++
 				res = Unknown
@@ -161,8 +223,11 @@ func (s *Solver) Check(cons []*Term, doms map[*Term]*[4]uint64, wantModel []*Ter
 			parseValues(txt, wantModel[i:j], model)
 		}
 	}
-	io.WriteString(s.in, "(pop 1)\n")
 	s.Wall += time.Since(start)
+	if s.LogDir != "" && time.Since(start) > 80*time.Millisecond && s.slowLogged < 5 {
+		s.slowLogged++
+		os.WriteFile(fmt.Sprintf("%s/slow_%s_%d_%dms.smt2", s.LogDir, s.Name, s.Queries, time.Since(start).Milliseconds()), []byte(script), 0o644)
+	}
 	return res, model, script
 }
 
